@@ -132,10 +132,11 @@ class Ctx:
         reqs = list(reqs)
         if not reqs:
             return []
-        if not os.path.exists(DRIVER):
+        driver = getattr(self, "driver", None) or DRIVER
+        if not os.path.exists(driver):
             raise RuntimeError("pkgdriver not built")
         data = "\n".join(json.dumps(r, ensure_ascii=False) for r in reqs) + "\n"
-        p = subprocess.run([DRIVER], input=data.encode("utf-8"), stdout=subprocess.PIPE, stderr=subprocess.PIPE)
+        p = subprocess.run([driver], input=data.encode("utf-8"), stdout=subprocess.PIPE, stderr=subprocess.PIPE)
         if p.returncode != 0:
             raise RuntimeError("pkgdriver failed: " + p.stderr.decode("utf-8", "replace")[:2000])
         out = p.stdout.decode("utf-8").split("\n")
@@ -243,6 +244,34 @@ def module_closure(mods):
     return sorted(seen)
 
 
+def private_driver(ctx):
+    """called under the lake lock right after a successful driver build: this run talks to its own copy of the binary, so that a
+    concurrent check that relinks the driver (its tables changed) cannot pull the executable away in the middle of a correspondence run"""
+    import atexit, shutil, time
+    bindir = os.path.dirname(DRIVER)
+    for f in os.listdir(bindir):          # copies left behind by killed runs
+        if f.startswith("pkgdriver.run"):
+            fp = os.path.join(bindir, f)
+            try:
+                if time.time() - os.path.getmtime(fp) > 6 * 3600:
+                    os.unlink(fp)
+            except OSError:
+                pass
+    dst = os.path.join(bindir, "pkgdriver.run%d" % os.getpid())
+    try:
+        shutil.copyfile(DRIVER, dst)
+        os.chmod(dst, 0o755)
+    except OSError:
+        return
+    ctx.driver = dst
+    def _rm():
+        try:
+            os.unlink(dst)
+        except OSError:
+            pass
+    atexit.register(_rm)
+
+
 def audit(ctx, mod):
     """build the property's modules + driver; audit axioms and forbidden tokens. returns (obligations, discharged)"""
     tables = {}
@@ -258,6 +287,8 @@ def audit(ctx, mod):
         rc, out = lake(["build", "pkgdriver"])
         if rc != 0:
             ctx.broken.append("lake build pkgdriver failed:\n" + out[-3000:])
+        else:
+            private_driver(ctx)
         rc, out = lake(["build"] + mod.LEAN_MODULES)
         build_ok = rc == 0
         if not build_ok:
